@@ -54,6 +54,17 @@ const c05Contract = `access(all) contract P {
     access(all) fun arr0Push(_ x: Int) { self.arr[0].push(x) }
     access(all) fun dSet(_ k: Int, _ x: In) { self.d[k] = x }
   }
+  access(all) struct Opt {
+    access(all) var o: [Int]?
+    access(all) var s: In?
+    access(all) var d: {Int: Int}?
+    init(_ n: Int) { self.o = P.ints(n); self.s = In(1, n); self.d = P.dict(n) }
+    access(all) fun addO(_ x: Int) { self.o!.append(x) }
+    access(all) fun setSN(_ x: Int) { self.s!.setN(x) }
+    access(all) fun pushS(_ x: Int) { self.s!.push(x) }
+    access(all) fun putD(_ x: Int) { self.d!.insert(key: 100000, x) }
+  }
+  access(all) fun optArr(_ s: Int): [[Int]?] { let r: [[Int]?] = []; var i = 0; while i < s { r.append([i, i + 1]); i = i + 1 }; return r }
   access(all) fun ints(_ s: Int): [Int] { let r: [Int] = []; var i = 0; while i < s { r.append(i); i = i + 1 }; return r }
   access(all) fun ints2(_ s: Int): [[Int]] { let r: [[Int]] = []; var i = 0; while i < s { r.append([i, i + 1]); i = i + 1 }; return r }
   access(all) fun ints3(_ s: Int): [[[Int]]] { let r: [[[Int]]] = []; var i = 0; while i < s { r.append([[i], [i + 1, i + 2]]); i = i + 1 }; return r }
@@ -77,29 +88,46 @@ type c05Shape struct {
 	typ  string
 	ctor string // %d = size
 	muts []c05Mut
+	// fewSizes: only sizes {1, 2, inline, split} (optional-wrapped shapes)
+	fewSizes bool
 }
 
 var c05Shapes = []c05Shape{
 	{"[Int]", "[Int]", "P.ints(%d)", []c05Mut{
-		{"set0", 1, "X[0] = 99", 1, false, false}, {"append", 1, "X.append(99)", 0, false, false}, {"remove0", 1, "X.remove(at: 0)", 1, false, false}}},
+		{"set0", 1, "X[0] = 99", 1, false, false}, {"append", 1, "X.append(99)", 0, false, false}, {"remove0", 1, "X.remove(at: 0)", 1, false, false}}, false},
 	{"[[Int]]", "[[Int]]", "P.ints2(%d)", []c05Mut{
 		{"append", 1, "X.append([7])", 0, false, false}, {"set0", 1, "X[0] = [99]", 1, false, false},
-		{"set00", 2, "X[0][0] = 99", 1, false, false}, {"append0", 2, "X[0].append(99)", 1, false, false}, {"setLast0", 2, "X[X.length - 1][0] = 99", 1, false, false}}},
+		{"set00", 2, "X[0][0] = 99", 1, false, false}, {"append0", 2, "X[0].append(99)", 1, false, false}, {"setLast0", 2, "X[X.length - 1][0] = 99", 1, false, false}}, false},
 	{"[[[Int]]]", "[[[Int]]]", "P.ints3(%d)", []c05Mut{
-		{"set000", 3, "X[0][0][0] = 99", 1, false, false}, {"append01", 3, "X[0][1].append(99)", 1, false, false}, {"set0", 1, "X[0] = []", 1, false, false}}},
+		{"set000", 3, "X[0][0][0] = 99", 1, false, false}, {"append01", 3, "X[0][1].append(99)", 1, false, false}, {"set0", 1, "X[0] = []", 1, false, false}}, false},
 	{"{Int: Int}", "{Int: Int}", "P.dict(%d)", []c05Mut{
-		{"set0", 1, "X[0] = 99", 0, false, false}, {"setNew", 1, "X[100000] = 1", 0, false, false}, {"remove0", 1, "X.remove(key: 0)", 1, false, false}}},
+		{"set0", 1, "X[0] = 99", 0, false, false}, {"setNew", 1, "X[100000] = 1", 0, false, false}, {"remove0", 1, "X.remove(key: 0)", 1, false, false}}, false},
 	{"{Int: [Int]}", "{Int: [Int]}", "P.dictArr(%d)", []c05Mut{
-		{"set0", 1, "X[0] = [99]", 0, false, false}, {"append0", 2, "X[0]!.append(99)", 1, true, false}, {"remove0", 1, "X.remove(key: 0)", 1, false, false}}},
+		{"set0", 1, "X[0] = [99]", 0, false, false}, {"append0", 2, "X[0]!.append(99)", 1, true, false}, {"remove0", 1, "X.remove(key: 0)", 1, false, false}}, false},
 	{"[{Int: Int}]", "[{Int: Int}]", "P.arrDict(%d)", []c05Mut{
-		{"set05", 2, "X[0][5] = 99", 1, false, false}, {"append", 1, "X.append({1: 1})", 0, false, false}}},
+		{"set05", 2, "X[0][5] = 99", 1, false, false}, {"append", 1, "X.append({1: 1})", 0, false, false}}, false},
 	{"In", "P.In", "P.In(1, %d)", []c05Mut{
-		{"setN", 1, "X.setN(99)", 0, false, false}, {"push", 2, "X.push(99)", 0, false, false}, {"set0", 2, "X.set0(99)", 1, false, false}}},
+		{"setN", 1, "X.setN(99)", 0, false, false}, {"push", 2, "X.push(99)", 0, false, false}, {"set0", 2, "X.set0(99)", 1, false, false}}, false},
 	{"[In]", "[P.In]", "P.arrIn(%d)", []c05Mut{
-		{"setN0", 2, "X[0].setN(99)", 1, false, false}, {"push0", 3, "X[0].push(99)", 1, false, false}, {"set0", 1, "X[0] = P.In(99, 0)", 1, false, false}}},
+		{"setN0", 2, "X[0].setN(99)", 1, false, false}, {"push0", 3, "X[0].push(99)", 1, false, false}, {"set0", 1, "X[0] = P.In(99, 0)", 1, false, false}}, false},
 	{"Out", "P.Out", "P.Out(%d)", []c05Mut{
 		{"setInnerN", 2, "X.setInnerN(99)", 0, false, false}, {"pushInner", 3, "X.pushInner(99)", 0, false, false},
-		{"arr0Push", 3, "X.arr0Push(99)", 1, false, false}, {"dSet", 2, "X.dSet(0, P.In(99, 1))", 0, false, false}, {"setInner", 1, "X.setInner(P.In(99, 3))", 0, false, false}}},
+		{"arr0Push", 3, "X.arr0Push(99)", 1, false, false}, {"dSet", 2, "X.dSet(0, P.In(99, 1))", 0, false, false}, {"setInner", 1, "X.setInner(P.In(99, 3))", 0, false, false}}, false},
+	// optional-wrapped shapes: mutation through force-unwrap (of the variable or of an optional reference)
+	{"[Int]?", "[Int]?", "P.ints(%d)", []c05Mut{
+		{"append", 1, "X!.append(99)", 0, false, false}, {"remove0", 1, "X!.remove(at: 0)", 1, false, false}, {"set0", 1, "X![0] = 99", 1, false, false}}, true},
+	{"{Int: Int}?", "{Int: Int}?", "P.dict(%d)", []c05Mut{
+		{"insert", 1, "X!.insert(key: 100000, 1)", 0, false, false}, {"remove0", 1, "X!.remove(key: 0)", 1, false, false}}, true},
+	{"In?", "P.In?", "P.In(1, %d)", []c05Mut{
+		{"setN", 1, "X!.setN(99)", 0, false, false}, {"push", 2, "X!.push(99)", 0, false, false}}, true},
+	{"[Int]??", "[Int]??", "P.ints(%d)", []c05Mut{
+		{"append", 1, "X!!.append(99)", 0, false, false}}, true},
+	{"[[Int]?]", "[[Int]?]", "P.optArr(%d)", []c05Mut{
+		{"append0", 2, "X[0]!.append(99)", 1, false, false}, {"set0", 1, "X[0] = nil", 1, false, false}}, true},
+	{"Opt", "P.Opt", "P.Opt(%d)", []c05Mut{
+		{"addO", 2, "X.addO(99)", 0, false, false}, {"setSN", 2, "X.setSN(99)", 0, false, false}, {"pushS", 3, "X.pushS(99)", 0, false, false}, {"putD", 2, "X.putD(7)", 0, false, false}}, true},
+	{"Opt?", "P.Opt?", "P.Opt(%d)", []c05Mut{
+		{"addO", 3, "X!.addO(99)", 0, false, false}, {"pushS", 3, "X!.pushS(99)", 0, false, false}}, true},
 }
 
 // a copy form: code that runs after `var v: T = ...; log(v)` and defines the
@@ -364,6 +392,9 @@ func runC05(env *mc.Env) {
 	for si, sh := range c05Shapes {
 		th := ths[sh.name]
 		sizes := []int{0, 1, 2, th.Inline - 1, th.Inline, th.Split - 1, th.Split}
+		if sh.fewSizes {
+			sizes = []int{1, 2, th.Inline, th.Split}
+		}
 		seen := map[int]bool{}
 		for _, n := range sizes {
 			if n < 0 || seen[n] {
@@ -581,7 +612,7 @@ func (p *c05Parser) value() (string, error) {
 func init() {
 	mc.Register(&mc.Check{
 		ID: "C05",
-		Rule: "every combination of 9 shapes (arrays, dictionaries and structs nested up to depth 3) x sizes {0, 1, 2, inline-1, inline, split-1, split} (atree thresholds measured per shape at run time) x 17 copy forms (let, argument+return, struct field, array append, dictionary insert, optional, dereference, save+copy, save+load, save+borrow, copy / borrow / load+save in a later transaction, and mutation of the temporary returned by copy<T>() or by a function) x mutated side x 3-5 mutations per shape at depth 1..3 x access mode (direct, reference taken before the copy, reference taken after), both engines; the checker decides which combinations are programs (rejections counted). Oracle: after the mutation every side that was not mutated prints what the original printed before the copy (order-insensitive for dictionaries and fields). Non-trivial = accepted case in which the mutated side visibly changed.",
+		Rule: "every combination of 16 shapes (arrays, dictionaries and structs nested up to depth 3, and optional-wrapped ones: [T]?, {K: V}?, S?, [T]??, [[T]?], structs with optional fields, mutated through force-unwrap) x sizes {0, 1, 2, inline-1, inline, split-1, split} (atree thresholds measured per shape at run time) x 17 copy forms (let, argument+return, struct field, array append, dictionary insert, optional, dereference, save+copy, save+load, save+borrow, copy / borrow / load+save in a later transaction, and mutation of the temporary returned by copy<T>() or by a function) x mutated side x 3-5 mutations per shape at depth 1..3 x access mode (direct, reference taken before the copy, reference taken after), both engines; the checker decides which combinations are programs (rejections counted). Oracle: after the mutation every side that was not mutated prints what the original printed before the copy (order-insensitive for dictionaries and fields). Non-trivial = accepted case in which the mutated side visibly changed.",
 		Assumptions: []string{
 			"values are observed through their logged String() form, parsed and canonicalised (dictionary entries and struct fields sorted)",
 			"whether a particular mutation syntax mutates in place is not judged; only independence of the other side is",
